@@ -487,6 +487,12 @@ func (e *c31Env) runResolve(c *c31Case, st behav.Step, cov func(string)) *behav.
 				for _, s := range sl { // a list flag may be repeated
 					args = append(args, "--"+a.opt.Name+"="+s)
 				}
+			} else if b, ok := a.vals["flag"].v.(bool); ok && b && rng.Intn(2) == 0 {
+				args = append(args, "--"+a.opt.Name) // a bare bool flag means true
+			} else if short := map[string]string{"data-dir": "-d", "bind": "-b"}[a.opt.Name]; short != "" && rng.Intn(2) == 0 {
+				args = append(args, short, a.vals["flag"].text())
+			} else if rng.Intn(3) == 0 && a.opt.Typ != "bool" {
+				args = append(args, "--"+a.opt.Name, a.vals["flag"].text())
 			} else {
 				args = append(args, "--"+a.opt.Name+"="+a.vals["flag"].text())
 			}
@@ -514,7 +520,14 @@ func (e *c31Env) runResolve(c *c31Case, st behav.Step, cov func(string)) *behav.
 			panic(err)
 		}
 		defer os.Remove(path)
-		args = append(args, "--config="+path)
+		switch c.Idx % 3 { // the configuration file is itself named by a flag or the environment
+		case 0:
+			args = append(args, "--config="+path)
+		case 1:
+			args = append(args, "-c", path)
+		default:
+			env["PILOSA_CONFIG"] = path
+		}
 	}
 	mk := func(symptom, detail string, opt string) *behav.Failure {
 		return &behav.Failure{
@@ -609,6 +622,13 @@ func (e *c31Env) runRender(c *c31Case, st behav.Step, cov func(string)) *behav.F
 		cc.Config = &cp
 		err := cc.Run(context.Background())
 		return out.String(), err
+	}
+	if allDefault {
+		direct, err1 := render(true)
+		_, viaTree, err2 := runTree("generate-config", nil, nil)
+		if err1 != nil || err2 != nil || direct != viaTree {
+			return mk("render_error", fmt.Sprintf("pilosa generate-config prints %q (%v), ctl.GenerateConfigCommand %q (%v)", viaTree, err2, direct, err1), only)
+		}
 	}
 	kinds := []bool{false}
 	if allDefault {
